@@ -101,6 +101,14 @@ func (p *Proxy) ServeHTTP(w http.ResponseWriter, proxyReq *http.Request) {
 }
 
 func finalizeAndRespond(r responder.Responder, resp io.Reader, status int, req *http.Request) error {
+	if status < 100 || status > 999 {
+		// An origin can send "HTTP/1.1 000 ..." or "099": net/http's client accepts any three digits, its
+		// server panics in WriteHeader on anything outside 100-999. Such an answer cannot be relayed.
+		slog.Error("Upstream sent an invalid status code", "url", req.URL, "status", status)
+		metrics.Global.Requests.StatusServerErrorResponses.Increment()
+		return r.WriteError("Bad Gateway: the upstream server sent an invalid status code", http.StatusBadGateway)
+	}
+
 	body := resp
 	if req.Method == http.MethodHead {
 		body = http.NoBody
